@@ -202,7 +202,20 @@ func (r *vfC17Run) dropConnScope() {
 	})
 }
 
-func vfC17NewRun(id, nNodes, numConns int, mod func(*ClusterConfig)) (*vfC17Run, error) {
+// vfC17NewRun sets up a scripted cluster and a real Session over it.  Set-up is retried: on a heavily loaded
+// machine a handshake or the initial system.local query can exceed even generous timeouts, and a set-up that
+// fails says nothing about the property.
+func vfC17NewRun(id, nNodes, numConns int, mod func(*ClusterConfig)) (r *vfC17Run, err error) {
+	for attempt := 0; attempt < 4; attempt++ {
+		if r, err = vfC17NewRunOnce(id, nNodes, numConns, mod); err == nil {
+			return r, nil
+		}
+		time.Sleep(time.Duration(100*(attempt+1)) * time.Millisecond)
+	}
+	return r, err
+}
+
+func vfC17NewRunOnce(id, nNodes, numConns int, mod func(*ClusterConfig)) (*vfC17Run, error) {
 	vfC17InstallRouter()
 	r := &vfC17Run{id: id, numConns: numConns, tr: vfNewTracer()}
 	r.cl = &vfCluster{Partitioner: "org.apache.cassandra.dht.Murmur3Partitioner", Version: "3.11.4"}
@@ -217,8 +230,10 @@ func vfC17NewRun(id, nNodes, numConns int, mod func(*ClusterConfig)) (*vfC17Run,
 	cfg := vfClusterConfig(r.base, 4, "10.0.0.1")
 	cfg.HostDialer = &vfC17RunDialer{run: r}
 	cfg.NumConns = numConns
-	cfg.Timeout = 150 * time.Millisecond
-	cfg.ConnectTimeout = 300 * time.Millisecond
+	// generous: no scenario relies on a driver timeout firing (nodes answer or hang up at once, refused dials fail
+	// at once); short ones only make set-up fail under load
+	cfg.Timeout = 5 * time.Second
+	cfg.ConnectTimeout = 5 * time.Second
 	cfg.ReconnectInterval = 60 * time.Millisecond
 	cfg.ReconnectionPolicy = &ConstantReconnectionPolicy{MaxRetries: 1, Interval: time.Millisecond}
 	cfg.HostFilter = HostFilterFunc(func(h *HostInfo) bool {
@@ -246,7 +261,7 @@ func vfC17NewRun(id, nNodes, numConns int, mod func(*ClusterConfig)) (*vfC17Run,
 	return r, nil
 }
 
-const vfC17CloseWatchdog = 3 * time.Second // 10x the largest configured timeout (ConnectTimeout 300 ms)
+const vfC17CloseWatchdog = 3 * time.Second // bounded waits that are not verdicts (verdicts: zz_vf_c17_wait_test.go)
 
 // vfC17DriverGoroutines returns the goroutines the driver started and still owns: the goroutine's
 // entry function is in package gocql (not a vf* / TestVf* function) and so is its creator.
@@ -1804,12 +1819,30 @@ func TestVfC17Scenarios(t *testing.T) {
 		vfC17ScenLatePool, vfC17ScenFlusherSelfWait, vfC17ScenCloseAfterRefresh, vfC17ScenCloseBusyRefresherPending, vfC17ScenReconnectRacingClose, vfC17ScenFailingSocketClose,
 		vfC17ScenReconnectSetupFails("local-error"), vfC17ScenReconnectSetupFails("local-norows"),
 		vfC17ScenReconnectSetupFails("register-error"), vfC17ScenReconnectSetupFails("filtered"),
-		vfC17ScenPoolRefilled(1), vfC17ScenPoolRefilled(2), vfC17ScenPoolRefilled(3)}
+		vfC17ScenPoolRefilled(1), vfC17ScenPoolRefilled(2), vfC17ScenPoolRefilled(3),
+		vfC17ScenEvStopVsFlush, vfC17ScenCloseVsEventFlush, vfC17ScenCloseDuringSlowHandler}
 	results := make([]vfC17ScenResult, len(fs))
 	var wg sync.WaitGroup
 	for i, f := range fs {
 		wg.Add(1)
-		go func(i int, f func() vfC17ScenResult) { defer wg.Done(); results[i] = f() }(i, f)
+		go func(i int, f func() vfC17ScenResult) {
+			defer wg.Done()
+			// a scenario that could not be set up or settled is repeated on a fresh cluster before it counts as
+			// "no verdict"
+			for attempt := 0; attempt < 3; attempt++ {
+				res := f()
+				if res.Unsure != "" {
+					res.Viol, res.What = "", ""
+					if res.Err == "" {
+						res.Err = "unsettled: " + res.Unsure
+					}
+				}
+				results[i] = res
+				if res.Err == "" || res.Viol != "" {
+					return
+				}
+			}
+		}(i, f)
 	}
 	wg.Wait()
 	for _, r := range results {
